@@ -206,6 +206,39 @@ theorem registered_forever (C : Crypto) (st : State) (cs : List Call) (hinv : Re
     simp only [run] at this
     rw [this, h1]
 
+/-- **An upgrade registers sets under the same rules**: the owner's `upgrade(operator, sets…)` advances
+    the epoch by exactly one per set; every set is well-formed, had never been registered before (and the
+    sets are pairwise different, since each is registered when the next is checked) and is registered
+    afterwards; nothing registered earlier loses or changes its epoch. -/
+theorem upgrade_registers_only_fresh_wellformed_sets (C : Crypto) (st st' : State) (now : Nat)
+    (op : Bytes) (ss : List WeightedSigners) (evs : List Ev)
+    (h : upgrade C st now op ss = .ok (st', evs)) :
+    st'.epoch = st.epoch + ss.length ∧
+    (∀ hsh, st.epochByHash hsh ≠ 0 → st'.epochByHash hsh = st.epochByHash hsh) ∧
+    (∀ ws ∈ ss, wfSigners ws = true ∧ st.epochByHash (signersHash C ws) = 0 ∧
+        st'.epochByHash (signersHash C ws) ≠ 0) := by
+  unfold upgrade at h
+  by_cases hz : isZeroAddr op = true
+  · simp only [hz, if_true] at h
+    exact upgradeLoop_spec C now ss st _ st' evs h
+  · simp only [hz, Bool.false_eq_true, if_false] at h
+    exact upgradeLoop_spec C now ss (transferOperatorshipRaw st op).1 _ st' evs h
+
+/-- a malformed or already registered set anywhere in the list makes the whole upgrade fail -/
+theorem upgrade_with_bad_set_fails (C : Crypto) (st : State) (now : Nat) (op : Bytes)
+    (ss : List WeightedSigners) (ws : WeightedSigners) (hmem : ws ∈ ss)
+    (hbad : wfSigners ws = false ∨ st.epochByHash (signersHash C ws) ≠ 0) :
+    ∃ e, upgrade C st now op ss = .error e := by
+  cases hu : upgrade C st now op ss with
+  | error e => exact ⟨e, rfl⟩
+  | ok v =>
+    obtain ⟨st', evs⟩ := v
+    obtain ⟨_, _, h3⟩ := upgrade_registers_only_fresh_wellformed_sets C st st' now op ss evs hu
+    obtain ⟨a, b, _⟩ := h3 ws hmem
+    rcases hbad with h | h
+    · rw [a] at h; cases h
+    · exact absurd b h
+
 /-- **Operatorship changes only at the request of the current operator or the owner.** -/
 theorem operator_changes_only_by_operator_or_owner (C : Crypto) (st : State) (c : Call)
     (h : (stepCall C st c).operator ≠ st.operator) :
